@@ -135,19 +135,26 @@ theorem look_eatSkipLf (m : Mach) (inp : Str) (hr : m.reconsume = false) (hok : 
     normalizeNewlinesFrom (eatSkipLf m inp).1.ignoreLf ((eatSkipLf m inp).1.tempBuf ++ (eatSkipLf m inp).2)
       = normalizeNewlinesFrom m.ignoreLf (m.tempBuf ++ inp) ∧
     ((eatSkipLf m inp).1.ignoreLf = true → (eatSkipLf m inp).1.tempBuf ++ (eatSkipLf m inp).2 = []) := by
+  obtain ⟨st, cr, cc, rcn, il, tk, tn, tsc, thd, ta, an0, av0, com, dt, lst, tb, ln, ae, db, out⟩ := m
+  simp only [EatOk] at hr hok
+  subst hr
   unfold eatSkipLf
-  cases hil : m.ignoreLf with
-  | false => simp [hil]
+  cases il with
+  | false => simp
   | true =>
-    have ht := hok hil
+    have ht := hok rfl
+    subst ht
+    have hr : ∀ b, (Mach.mk st cr cc false b tk tn tsc thd ta an0 av0 com dt lst [] ln ae db out).reconsume = false :=
+      fun _ => rfl
+    have hil : (Mach.mk st cr cc false true tk tn tsc thd ta an0 av0 com dt lst [] ln ae db out).ignoreLf = true := rfl
     cases inp with
-    | nil => simp [peek, hr, hil, ht]
+    | nil => simp [peek]
     | cons c rest =>
       simp only [peek, hr, Bool.false_eq_true, ↓reduceIte, List.head?_cons]
       by_cases hc : c = '\n'
       · subst hc
-        simp [discardChar, hr, ht, look_norm_lf_true, Mach.setIgnoreLf]
-      · simp [hc, hr, ht, look_norm_flag c rest hc, Mach.setIgnoreLf]
+        simp [discardChar, look_norm_lf_true, Mach.setIgnoreLf]
+      · simp [hc, look_norm_flag c rest hc, Mach.setIgnoreLf]
 
 /-- **one `eat` under `InpRel`**: `N` is what the specification still has to read. The model's
 answer is the specification's test on `N`; a matched keyword is dropped on both sides; otherwise
@@ -188,14 +195,14 @@ theorem look_eat (m : Mach) (inp pat : Str) (eq : Char → Char → Bool)
       simp only [hc, hae, ↓reduceIte, Prod.mk.injEq] at h
       obtain ⟨hb, hm1, hi1⟩ := h
       subst hb hm1 hi1
-      refine ⟨by rw [hmach]; rfl, fun hx => ⟨rfl, f3 (by simpa using hx)⟩, by simp, fun _ => ⟨?_, rfl, rfl⟩, by simp⟩
-      simp only [Mach.setTempBuf] at hN ⊢
+      refine ⟨by rw [hmach], fun hx => ⟨rfl, f3 (by simpa using hx)⟩, by simp, fun _ => ⟨?_, rfl, rfl⟩, by simp⟩
+      show eatCmp eq (normalizeNewlinesFrom mi.ignoreLf all) pat ≠ some true
       rw [hN, hc]; simp
     | false =>
       simp only [hc, hae, Bool.false_eq_true, ↓reduceIte, Prod.mk.injEq] at h
       obtain ⟨hb, hm1, hi1⟩ := h
       subst hb hm1 hi1
-      refine ⟨by rw [hmach]; rfl, fun hx => ⟨f3 (by simpa using hx), rfl⟩, by simp, by simp, fun _ => by simp [Mach.setTempBuf]⟩
+      refine ⟨by rw [hmach], fun hx => ⟨f3 (by simpa using hx), rfl⟩, by simp, by simp, fun _ => by simp [Mach.setTempBuf]⟩
   | some bb =>
     have hne' : all ≠ [] := by
       intro hnil
@@ -212,14 +219,14 @@ theorem look_eat (m : Mach) (inp pat : Str) (eq : Char → Char → Bool)
       simp only [hc, Prod.mk.injEq] at h
       obtain ⟨hb, hm1, hi1⟩ := h
       subst hb hm1 hi1
-      refine ⟨by rw [hmach]; rfl, fun hx => by simp [hig] at hx, by simp, fun _ => ⟨?_, rfl, rfl⟩, by simp⟩
-      simp only [Mach.setTempBuf] at hN ⊢
+      refine ⟨by rw [hmach], fun hx => by simp [hig] at hx, by simp, fun _ => ⟨?_, rfl, rfl⟩, by simp⟩
+      show eatCmp eq (normalizeNewlinesFrom mi.ignoreLf all) pat ≠ some true
       rw [hN, hc]; simp
     | true =>
       simp only [hc, Prod.mk.injEq] at h
       obtain ⟨hb, hm1, hi1⟩ := h
       subst hb hm1 hi1
-      refine ⟨by rw [hmach]; rfl, fun hx => by simp [hig] at hx, fun _ => ⟨?_, ?_, rfl, by simpa using hig⟩, by simp, by simp⟩
+      refine ⟨by rw [hmach], fun hx => by simp [hig] at hx, fun _ => ⟨?_, ?_, rfl, by simpa using hig⟩, by simp, by simp⟩
       · rw [hN, hc]
       · simp only [Mach.setTempBuf]
         rw [hig]
